@@ -49,7 +49,7 @@ def main():
     # 3. references around rejected loads (a state that fails part-way, onto a container that holds entries; object-keyed,
     #    object-valued and mixed families) and cyclic garbage through stored objects (every kind, first / middle / last leaf)
     for flavour in ('plain', 'asan'):
-        mplan = [dict(fam=f) for f in (['OO', 'OI', 'IO', 'LO', 'OL'] if flavour == 'plain' else ['OO', 'OI', 'IO'])]
+        mplan = [dict(fam=f) for f in (['OO', 'OI', 'IO', 'LO', 'OL', 'fs'] if flavour == 'plain' else ['OO', 'OI', 'IO', 'fs'])]
         for job, res, err in jobs.run_jobs('harness.workers.ledger_misc_worker', mplan, flavour=flavour):
             ident = dict(fam=job['fam'], build=flavour)
             if err:
